@@ -6,6 +6,7 @@ CONSTANTS
   AcqBarrier = TRUE
   NotLeaderPanics = FALSE
   ApplyRefuses = TRUE
+  QueueGroup = TRUE
   MaxReq = 2
   MaxTransfers = 1
   MaxCancels = 1
